@@ -15,14 +15,22 @@ explorer-only fields (never in gen_cases; C04 uses them for the adversary):
                 pwd_b, helloa_b, hellob_b   B's view of password / hello messages
                 val_fail, val_code    the val_fail-th certificate validator call answers val_code
                 act='flip' (act_i, act_j, act_m) | 'subst' (act_i, act_data): alteration of message M<act_i> in transit
+insider fields: (bake.BSTSInsider / btok.BAUTHInsider only) act='insider', act_i = index of the replaced message (BSTS: 2, 3; BAUTH: 3),
+                ins = label, ins_s = the l/4 octets placed where <s>_2l belongs (None = the honest s), ins_cert = the certificate
+                placed in the body (None = the sender's own).  The message is built by the reference model from the session keys
+                K1, K2 it derives from the case (tapes, keys, hello): correct tag, correctly encrypted body.
+                result: ret (first error that is not the receiving step's verdict; ERR_OUTOFMEMORY of that step counts as an
+                error), rejected (the receiving step returned an error), rej (its code), sync (the model's honest M_i equals
+                the real one, i.e. the insider message really is authentic), keyA, keyB, steps
 sweep fields:   (sweep_cases only) sweep = kind, sweep_who = party: raw_kc (flags outside the protocol's domain), rng_null, params_l
                 (level field of bign_params), or an inadmissible own certificate; the documented error comes back from Start
 result:         ret (first non-zero step result or 0), keyA, keyB (b'' when the party did not finish), msgs (all
                 messages concatenated), mlens, steps ("A.Step3=0x0" ...), useda/usedb (tape octets consumed)
-reference:      ref/bake.py for BMQV / BSTS / BPACE (bonus oracle: keys, every message, tape consumption); BAUTH has no
-                vector-gated model, its oracle is relational (C04).
+reference:      ref/bake.py (bonus oracle: keys, every message, tape consumption); the deciding oracle of C04 is relational.  The BAUTH
+                part of the model has no published vector (btok_test.c only compares the two keys): it is a reading of the protocol
+                that the real code reproduces octet for octet on every honest dialogue of the corpus.
 """
-import ctypes, functools
+import ctypes, functools, hashlib, os, pickle, shutil
 import vf, cat
 from cat import reg
 from cat_belt import Composite
@@ -101,6 +109,9 @@ def tamper(c, i, m):
             w = bytearray(m); w[c['act_j']] ^= c['act_m']; return bytes(w)
         if c['act'] == 'subst':
             return bytes(c['act_data'])
+        if c['act'] == 'insider':
+            x = insider(c)
+            return x['msg'] if x else m
     return m
 
 # ------------------------------------------------------------------ step-by-step dialogue
@@ -251,8 +262,56 @@ def _impl_run(lib, c, A, fill):
             'wrA': b''.join(ra['written']), 'wrB': b''.join(rb['written']), 'callsA': [list(x) for x in ra['calls']],
             'callsB': [list(x) for x in rb['calls']], 'keyS': d['keyA'] or b''}
 
+# ------------------------------------------------------------------ memo of reference-model results
+# The reference models use affine Python arithmetic (~0.1 s per scalar multiplication at l = 256) and the same dialogue is needed by
+# every check and every build configuration that replays the corpus, so what the MODEL computed is kept in /verif/build/cat_bake_cache/,
+# keyed by the sources of the models and of this file and by all inputs.  Nothing the library returned is ever stored there.
+_MEMO_DIR = os.path.join(vf.VERIF, 'build', 'cat_bake_cache')
+_mem = {}
+_srckey = None
+
+def _memo(tag, fn):
+    """tag: tuple of plain values describing a pure reference computation"""
+    global _srckey
+    k = hashlib.sha256(repr(tag).encode()).hexdigest()[:32]
+    if k in _mem:
+        return _mem[k]
+    if _srckey is None:
+        h = hashlib.sha256()
+        for f in ('bake.py', 'belt.py', 'ecp.py', 'bign.py'):
+            h.update(open(os.path.join(vf.VERIF, 'ref', f), 'rb').read())
+        h.update(open(os.path.abspath(__file__), 'rb').read())
+        _srckey = h.hexdigest()[:20]
+    d = os.path.join(_MEMO_DIR, _srckey)
+    path = os.path.join(d, k + '.pkl')
+    try:
+        with open(path, 'rb') as f:
+            v = pickle.load(f)
+    except Exception:
+        v = fn()
+        try:
+            if not os.path.isdir(d):
+                os.makedirs(d, exist_ok=True)
+                for o in os.listdir(_MEMO_DIR):          # drop the results of other source versions
+                    if o != _srckey:
+                        shutil.rmtree(os.path.join(_MEMO_DIR, o), ignore_errors=True)
+            tmp = path + '.%d.tmp' % os.getpid()
+            with open(tmp, 'wb') as f:
+                pickle.dump(v, f, protocol=4)
+            os.replace(tmp, path)
+        except Exception:
+            pass
+    _mem[k] = v
+    return v
+
+def _base_tag(c):
+    return (c['proto'], c['l'], flags(c), c.get('da'), c.get('db'), c.get('certa'), c.get('certb'), c.get('pwd'), c['tapea'], c['tapeb'], c['helloa'], c['hellob'])
+
 # ------------------------------------------------------------------ reference bindings
 def _ref_run(c):
+    return _memo(('run',) + _base_tag(c), lambda: _ref_run_raw(c))
+
+def _ref_run_raw(c):
     p, l = c['proto'], c['l']
     kca, kcb = flags(c)
     if p == 'BMQV':
@@ -261,6 +320,8 @@ def _ref_run(c):
         r = RK.run_bsts(l, c['da'], c['db'], c['certa'], c['certb'], c['tapea'], c['tapeb'], c['helloa'], c['hellob'])
     elif p == 'BPACE':
         r = RK.run_bpace(l, c['pwd'], c['tapea'], c['tapeb'], c['helloa'], c['hellob'], kca, kcb)
+    elif p == 'BAUTH':
+        r = RK.run_bauth(l, c['da'], c['db'], c['certa'], c['certb'], c['tapea'], c['tapeb'], c['helloa'], c['hellob'], kcb)
     else:
         return None
     msgs = [r[k] for k in ('M1', 'M2', 'M3', 'M4') if r.get(k)]
@@ -271,8 +332,6 @@ SWEEP_RET = {'kc': E['BAD_INPUT'], 'rng': E['BAD_RNG'], 'params': E['BAD_PARAMS'
 def _ref_sweep(c):
     return {'ret': SWEEP_RET[c['sweep']]}
 
-def _ref_bauth(c):
-    return _ref_sweep(c) if c.get('sweep') else None
 
 def _ref_dialogue(c):
     if c.get('sweep'):
@@ -301,10 +360,118 @@ def _derived(case, res):
             out += [('sa', le(case['l'], r['sa'])), ('sb', le(case['l'], r['sb']))]
         except Exception:
             pass
+    if case['proto'] == 'BAUTH' and flags(case)[1] and not case.get('sweep') and res.get('ret') == 0:
+        try:
+            out.append(('sct', le(case['l'], _ref_run(case)[0]['sb'])))
+        except Exception:
+            pass
+    if case.get('act') == 'insider':
+        x = insider(case)
+        if x:
+            out.append(('decrypted body (s || certificate) of the authenticated M%d' % case['act_i'], x['body']))
     return out
 
+# ------------------------------------------------------------------ authenticated insider (a peer that holds K1, K2 sends an out-of-range s)
+INS_RECV = {('BSTS', 2): 'B.Step4', ('BSTS', 3): 'A.Step5', ('BAUTH', 3): 'A.Step5'}
+INS_NAME = {'BSTS': 'bake.BSTSInsider', 'BAUTH': 'btok.BAUTHInsider'}
+
+def _ins_session(c):
+    """snapshots of the reference model's party states in the honest dialogue of the case: A3 (A after step 3), B2 (B after step 2),
+    B4 (B after step 4), ms = [M1, M2, M3]; None if the model cannot run (generator tape too short)"""
+    def compute():
+        proto, l = c['proto'], c['l']
+        bsts = proto == 'BSTS'
+        try:
+            if bsts:
+                B = RK.bsts_start(l, 'B', c['db'], c['certb'], c['tapeb'], c['helloa'], c['hellob'])
+                A = RK.bsts_start(l, 'A', c['da'], c['certa'], c['tapea'], c['helloa'], c['hellob'])
+                ms = [RK.bsts_step2(B)]
+            else:
+                B = RK.bauth_ct_start(l, c['db'], c['certb'], c['tapeb'], c['helloa'], c['hellob'], True)
+                A = RK.bauth_t_start(l, c['da'], c['certa'], c['tapea'], c['helloa'], c['hellob'], True)
+                ms = [RK.bauth_step2(B, c['certa'])]
+            B2 = dict(B)
+            ms.append(RK.bsts_step3(A, ms[0]) if bsts else RK.bauth_step3(A, ms[0]))
+        except RK.BakeError:
+            return None
+        try:
+            ms.append(RK.bsts_step4(B, ms[1]) if bsts else RK.bauth_step4(B, ms[1]))
+        except RK.BakeError:
+            B = None                      # B refuses the honest M2 (keys and certificates of the case do not belong together)
+        for st in (A, B, B2):
+            if st:
+                st.pop('certval', None)
+        return dict(A3=A, B2=B2, B4=B, ms=ms)
+    return _memo(('ins.session',) + _base_tag(c), compute)
+
+def _ins_sender(c, x):
+    return x['A3'] if (c['proto'], c['act_i']) == ('BSTS', 2) else x['B4']
+
+def insider(c):
+    """-> dict(hon = the model's honest M_i, msg = M_i carrying ins_s / ins_cert under the session's K1, K2, body = its plaintext) or None"""
+    x = _ins_session(c)
+    if x is None:
+        return None
+    proto, l, i = c['proto'], c['l'], c['act_i']
+    snd = _ins_sender(c, x)
+    if snd is None:
+        return None
+    s = snd['s'] if c.get('ins_s') is None else int.from_bytes(c['ins_s'], 'little')
+    crt = snd['cert'] if c.get('ins_cert') is None else bytes(c['ins_cert'])
+    if proto == 'BSTS':
+        msg = RK.bsts_seal(snd, 'A' if i == 2 else 'B', s, crt, snd.get('Va'))
+    else:
+        msg = RK.bauth_seal(snd, s, crt)
+    return dict(hon=x['ms'][i - 1], msg=msg, body=le(l, s) + crt)
+
+def insider_verdict(c):
+    """what the reference model's receiving step says to the insider message: (None | error name, keyA, keyB as the parties hold them then)"""
+    def compute():
+        x = _ins_session(c)
+        if x is None or x['B4'] is None:
+            return None
+        proto, i = c['proto'], c['act_i']
+        rcv = dict(x['B2'] if (proto, i) == ('BSTS', 2) else x['A3'], certval=RK.default_certval)
+        msg = insider(c)['msg']
+        try:
+            if proto == 'BSTS':
+                RK.bsts_step4(rcv, msg) if i == 2 else RK.bsts_step5(rcv, msg)
+            else:
+                RK.bauth_step5(rcv, msg)
+        except RK.BakeError as e:
+            return (e.code, b'', x['B4']['K0'] if i == 3 else b'')       # M3: the sender B has finished and holds its key
+        return (None, x['A3']['K0'], x['B4']['K0'])
+    return _memo(('ins.verdict', c['act_i'], c.get('ins_s'), c.get('ins_cert')) + _base_tag(c), compute)
+
+def _impl_insider(lib, c, A, fill):
+    d = dialogue(lib, c, A, fill)
+    recv = INS_RECV[(c['proto'], c['act_i'])]
+    ret, rej = 0, 0
+    for n, r in d['trace']:
+        if r:
+            if n == recv and r != E['OUTOFMEMORY']:
+                rej = r            # the verdict on the peer's message, not a failure of the run
+            else:
+                ret = r
+            break
+    x = insider(c)
+    i = c['act_i']
+    return {'ret': ret, 'rejected': int(rej != 0), 'rej': rej, 'sync': int(bool(x) and len(d['msgs']) >= i and d['msgs'][i - 1] == x['hon']),
+            'keyA': d['keyA'] or b'', 'keyB': d['keyB'] or b'', 'steps': ['%s=%#x' % t for t in d['trace']]}
+
+def _ref_insider(c):
+    v = insider_verdict(c)
+    if v is None:
+        return None
+    return {'ret': 0, 'rejected': int(v[0] is not None), 'sync': 1, 'keyA': v[1], 'keyB': v[2]}
+
+for _n in INS_NAME.values():
+    _f = reg(Composite(_n, _impl_insider, _ref_insider, group='bake', secrets=('da', 'db', 'tapea', 'tapeb')))
+    _f.faultable = True
+    _f.derived = _derived
+
 for _p, _n in (('BMQV', 'bake.BMQV'), ('BSTS', 'bake.BSTS'), ('BPACE', 'bake.BPACE'), ('BAUTH', 'btok.BAUTH')):
-    _f = reg(Composite(_n, _impl_dialogue, _ref_dialogue if _p != 'BAUTH' else _ref_bauth, group='bake',
+    _f = reg(Composite(_n, _impl_dialogue, _ref_dialogue, group='bake',
                        secrets=('pwd', 'tapea', 'tapeb') if _p == 'BPACE' else ('da', 'db', 'tapea', 'tapeb')))
     _f.faultable = True
     _f.derived = _derived
@@ -346,10 +513,13 @@ def ctx(l):
     return ps, Ecv, G, q, no
 
 @functools.lru_cache(maxsize=None)
+def mul_g(l, d):
+    """the point dG"""
+    return tuple(_memo(('dG', l, int(d)), lambda: ctx(l)[1].mul(d, ctx(l)[2])))
+
 def pub(l, d):
     """<dG>_4l for a private key given as int"""
-    ps, Ecv, G, q, no = ctx(l)
-    return RBN.enc_point(l, Ecv.mul(d, G))
+    return RBN.enc_point(l, mul_g(l, d))
 
 def scalar(tag, l):
     """a filler value in {1..q-1}"""
@@ -384,30 +554,31 @@ def t_of(l, xa, xb):
     return int.from_bytes(RT.hash(le(l, xa) + le(l, xb))[:l // 8], 'little')
 
 @functools.lru_cache(maxsize=None)
-def engineered(l, which):
-    """(da, db, ua, ub) with sa = (ua - (2^l + t) da) mod q == 0 ('sa'), sb == 0 ('sb') or both ('sab'): the ephemeral
+def engineered(l, which, r=0):
+    """(da, db, ua, ub) with sa = (ua - (2^l + t) da) mod q == r ('sa'), sb == r ('sb') or both ('sab'): the ephemeral
     keys are fixed first (they determine t), then the long-term key is solved from the equation"""
     ps, Ecv, G, q, no = ctx(l)
     ua, ub = scalar('c04.eng.ua/%d' % l, l), scalar('c04.eng.ub/%d' % l, l)
-    Va, Vb = Ecv.mul(ua, G), Ecv.mul(ub, G)
+    Va, Vb = mul_g(l, ua), mul_g(l, ub)
     k = (2 ** l + t_of(l, Va[0], Vb[0])) % q
     da, db = privkeys(l)
     if which in ('sa', 'sab'):
-        da = ua * pow(k, -1, q) % q
+        da = (ua - r) * pow(k, -1, q) % q
     if which in ('sb', 'sab'):
-        db = ub * pow(k, -1, q) % q
+        db = (ub - r) * pow(k, -1, q) % q
     assert 0 < da < q and 0 < db < q
     return da, db, ua, ub
 
 @functools.lru_cache(maxsize=None)
-def engineered_bauth(l):
-    """(dct, uct, Rt) with sct = (uct - (2^l + t) dct) mod q == 0, t = <belt-hash(<Vct>_2l || Rt)>_l"""
+def engineered_bauth(l, r=0):
+    """(dct, uct, Rt) with sct = (uct - (2^l + t) dct) mod q == r, t = <belt-hash(<Vct>_2l || Rt)>_l"""
     ps, Ecv, G, q, no = ctx(l)
     uct = scalar('c04.eng.uct/%d' % l, l)
     Rt = vf.filler('c04.eng.Rt/%d' % l, 16)
-    V = Ecv.mul(uct, G)
+    V = mul_g(l, uct)
     t = int.from_bytes(RT.hash(le(l, V[0]) + Rt)[:l // 8], 'little')
-    dct = uct * pow((2 ** l + t) % q, -1, q) % q
+    dct = (uct - r) * pow((2 ** l + t) % q, -1, q) % q
+    assert 0 < dct < q
     return dct, uct, Rt
 
 def base_case(proto, l, kca=1, kcb=1, hello=(None, None), tapea=None, tapeb=None, keys=None, prefixes=(b'Alice', b'Bob'), pwd=b'8086'):
@@ -524,8 +695,47 @@ def algo_cases(tier):
         out += [('bake.SWU', dict(l=l, msg=m)) for m in msgs]
     return out
 
+def insider_cases(tier):
+    """[(fname, case)] authenticated-insider dialogues: the sender of BSTS M2 / BSTS M3 / BAUTH M3 knows K1, K2 (it is the legitimate peer) and
+    sends a correctly tagged, correctly encrypted body whose number s is out of range, or whose certificate is not its own.
+      general base      s in {q, q + 1, 2^2l - 1}; control: the honest s re-sealed by the model; certificate with an off-curve key,
+                        with another party's key, one octet long
+      engineered bases  long-term key chosen so that the honest s is r in {0, 1, 2^2l - 1 - q}: control, and the alias s = r + q
+                        in {q, q + 1, 2^2l - 1} (the same residue: only the range rule s in {0..q-1} of the standards rejects it)"""
+    out = []
+    for l in (128, 192, 256):
+        ps, Ecv, G, q, no = ctx(l)
+        top = (1 << (2 * l)) - 1
+        hs = hello_sets(tier)
+        d3 = scalar('c04.d3/%d' % l, l)
+        for proto, i in (('BSTS', 2), ('BSTS', 3), ('BAUTH', 3)):
+            nm = INS_NAME[proto]
+            who = 'a' if (proto, i) == ('BSTS', 2) else 'b'
+            def mk(base, lab, s=None, crt=None):
+                out.append((nm, dict(base, act='insider', act_i=i, ins=lab, ins_s=None if s is None else le(l, s), ins_cert=crt)))
+            g = base_case(proto, l, 1, 1, hs[1])
+            own = g['cert' + who]
+            x, y = int.from_bytes(own[-2 * no:-no], 'little'), int.from_bytes(own[-no:], 'little')
+            assert not Ecv.is_on((x, (y + 1) % ps['p']))
+            mk(g, 'control')
+            for lab, s in (('q', q), ('q+1', q + 1), ('max', top)):
+                mk(g, lab, s)
+            mk(g, 'cert-offcurve', None, own[:-no] + le(l, (y + 1) % ps['p']))
+            mk(g, 'cert-otherkey', None, cert(l, d3, own[:-2 * no]))
+            mk(g, 'cert-short', None, b'\x01')
+            for lab, r in (('q', 0), ('q+1', 1), ('max', top - q)):
+                if proto == 'BSTS':
+                    da, db, ua, ub = engineered(l, 'sab', r)          # sa = sb = r: one base serves M2 and M3
+                    e = base_case(proto, l, 1, 1, hs[0], tapea=le(l, ua), tapeb=le(l, ub), keys=(da, db))
+                else:
+                    dct, uct, Rt = engineered_bauth(l, r)
+                    e = base_case(proto, l, 1, 1, hs[0], tapea=Rt, tapeb=vf.filler('c04.Rct/%d' % l, no // 2) + le(l, uct), keys=(privkeys(l)[0], dct))
+                mk(e, 'control:s=' + {'q': '0', 'q+1': '1', 'max': 'max-q'}[lab])
+                mk(e, 'alias:' + lab, r + q)
+    return out
+
 def gen_cases(tier):
-    return honest_cases(tier) + run_cases(tier) + algo_cases(tier)
+    return honest_cases(tier) + run_cases(tier) + algo_cases(tier) + insider_cases(tier)
 
 def sweep_cases(tier):
     """arguments outside the documented domain of the Start functions (bake.h / btok.h \\expect{ERR_...} lines); the reference
